@@ -38,6 +38,21 @@ impl Append for GenCap {
     fn flush(&self) {}
 }
 
+/// Records the delivery, then reports an error.
+#[derive(Debug)]
+struct FailCap {
+    gen: u32,
+    name: String,
+}
+
+impl Append for FailCap {
+    fn append(&self, _r: &Record) -> anyhow::Result<()> {
+        DELIV.with(|d| d.borrow_mut().push((self.gen, self.name.clone())));
+        Err(anyhow::anyhow!("g{} {} failed", self.gen, self.name))
+    }
+    fn flush(&self) {}
+}
+
 /// Two families of shapes whose appender tables differ in length (5 vs 1) and whose
 /// levels differ, so that a tree/table or level/fan-out mixture is observable.
 fn gen_spec_for(g: u32, rng: &mut Rng) -> ConfSpec {
@@ -298,6 +313,7 @@ struct SwapOnAppend {
     gen: u32,
     handle: Mutex<Option<log4rs::Handle>>,
     next: Mutex<Option<Config>>,
+    fail: bool,
 }
 
 impl Append for SwapOnAppend {
@@ -308,6 +324,9 @@ impl Append for SwapOnAppend {
         if let (Some(h), Some(cfg)) = (h, cfg) {
             h.set_config(cfg);
         }
+        if self.fail {
+            return Err(anyhow::anyhow!("g{} SWAP failed", self.gen));
+        }
         Ok(())
     }
     fn flush(&self) {}
@@ -317,7 +336,10 @@ fn reentrant(rep: &mut Report, _rng: &mut Rng, idx: u64) {
     // generation 1: [P0.., SWAP, ..Pk] on the root; SWAP installs generation 2 (a single appender N)
     let before = (idx % 4) as usize;
     let after = ((idx / 4) % 4) as usize;
-    let swapper = Arc::new(SwapOnAppend { gen: 1, handle: Mutex::new(None), next: Mutex::new(None) });
+    // which appenders of generation 1 report an error: none / the swapping one / the last one / the first one and the swapping one
+    let fail_kind = (idx / 16) % 4;
+    let swapper = Arc::new(SwapOnAppend { gen: 1, handle: Mutex::new(None), next: Mutex::new(None), fail: fail_kind == 1 || fail_kind == 3 });
+    let mut want_errors: Vec<String> = vec![];
     #[derive(Debug)]
     struct Fwd(Arc<SwapOnAppend>);
     impl Append for Fwd {
@@ -331,16 +353,31 @@ fn reentrant(rep: &mut Report, _rng: &mut Rng, idx: u64) {
     let mut want1: Vec<String> = vec![];
     for i in 0..before {
         let n = format!("P{}", i);
-        b = b.appender(Appender::builder().build(n.clone(), Box::new(GenCap { gen: 1, name: n.clone() })));
+        let boxed: Box<dyn Append> = if fail_kind == 3 && i == 0 {
+            want_errors.push(format!("g1 {} failed", n));
+            Box::new(FailCap { gen: 1, name: n.clone() })
+        } else {
+            Box::new(GenCap { gen: 1, name: n.clone() })
+        };
+        b = b.appender(Appender::builder().build(n.clone(), boxed));
         rb = rb.appender(n.clone());
         want1.push(n);
     }
     b = b.appender(Appender::builder().build("SWAP", Box::new(Fwd(swapper.clone()))));
     rb = rb.appender("SWAP");
     want1.push("SWAP".into());
+    if swapper.fail {
+        want_errors.push("g1 SWAP failed".into());
+    }
     for i in 0..after {
         let n = format!("Q{}", i);
-        b = b.appender(Appender::builder().build(n.clone(), Box::new(GenCap { gen: 1, name: n.clone() })));
+        let boxed: Box<dyn Append> = if fail_kind == 2 && i + 1 == after {
+            want_errors.push(format!("g1 {} failed", n));
+            Box::new(FailCap { gen: 1, name: n.clone() })
+        } else {
+            Box::new(GenCap { gen: 1, name: n.clone() })
+        };
+        b = b.appender(Appender::builder().build(n.clone(), boxed));
         rb = rb.appender(n.clone());
         want1.push(n);
     }
@@ -349,11 +386,14 @@ fn reentrant(rep: &mut Report, _rng: &mut Rng, idx: u64) {
         .appender(Appender::builder().build("N", Box::new(GenCap { gen: 2, name: "N".into() })))
         .build(Root::builder().appender("N").build(LevelFilter::Trace))
         .unwrap();
-    let logger = log4rs::Logger::new(cfg1);
+    // generation 1 has its own error handler: the errors of a record routed under generation 1 belong to it
+    let handled: Arc<Mutex<Vec<String>>> = Arc::new(Mutex::new(vec![]));
+    let h2 = handled.clone();
+    let logger = log4rs::Logger::new_with_err_handler(cfg1, Box::new(move |e: &anyhow::Error| h2.lock().unwrap().push(e.to_string())));
     *swapper.handle.lock().unwrap() = Some(logger.verif_handle());
     *swapper.next.lock().unwrap() = Some(cfg2);
-    let d = json!({"appenders_before_the_swapping_one": before, "after": after});
-    rep.case(&format!("reentrant|{}|{}", before, after), true);
+    let d = json!({"appenders_before_the_swapping_one": before, "after": after, "errors_reported_by_generation_1_appenders": want_errors});
+    rep.case(&format!("reentrant|{}|{}|{}", before, after, fail_kind), true);
     rep.count("reentrant_swaps", 1);
     let one = |rep: &mut Report| -> Option<Vec<(u32, String)>> {
         DELIV.with(|d| d.borrow_mut().clear());
@@ -371,7 +411,16 @@ fn reentrant(rep: &mut Report, _rng: &mut Rng, idx: u64) {
         rep.violation("C15:reentrant-swap-changed-the-record-in-progress", json!({"case": d,
             "expected": format!("{:?}", want_first), "got": format!("{:?}", first)}));
     }
+    let got_errors = std::mem::take(&mut *handled.lock().unwrap());
+    rep.count("reentrant_errors_expected_at_the_old_generations_handler", want_errors.len() as i64);
+    if got_errors != want_errors {
+        rep.violation("C15:errors-of-the-record-in-progress-not-handled-under-its-own-configuration", json!({"case": d,
+            "handler_of_generation_1_received": got_errors, "expected": want_errors}));
+    }
     let Some(second) = one(rep) else { return };
+    if !handled.lock().unwrap().is_empty() {
+        rep.violation("C15:old-handler-called-for-a-record-after-the-swap", json!({"case": d, "got": format!("{:?}", handled.lock().unwrap())}));
+    }
     if second != vec![(2u32, "N".to_owned())] {
         rep.violation("C15:record-after-swap-not-under-new-configuration", json!({"case": d, "got": format!("{:?}", second)}));
     }
@@ -807,7 +856,7 @@ pub fn run(rep: &mut Report) {
         Some(v) => std::env::set_var("L4V_JOBS", v),
         None => std::env::remove_var("L4V_JOBS"),
     }
-    run_cases(rep, "reentrant", 16, reentrant);
+    run_cases(rep, "reentrant", 64, reentrant);
     run_cases(rep, "reloader", if thorough { 6000 } else { 1000 }, reloader_history);
     std::env::set_var("L4V_JOBS", "4");
     run_cases(rep, "e2e", if thorough { 8 } else { 2 }, e2e);
